@@ -78,6 +78,8 @@ def gate_dispatch(run, f, direction, rule='R11.gate'):
                 return _Sym('random', rec(nd.args[0]) if nd.args else None)
             if isinstance(fn, ast.Name) and fn.id == 'mask':
                 return _Sym('mask', *[rec(a) for a in nd.args[:2]])
+            if isinstance(fn, ast.Name) and fn.id == 'Pauli' and len(nd.args) == 1 and not any(k.arg in ('p',) for k in nd.keywords):
+                return _Sym('pauli-without-phase')          # an operator built from a string only: phase 0, whatever the generator's sign
             if isinstance(fn, ast.Name) and fn.id in ('getattr', 'setattr') and len(nd.args) >= 2 and norm(nd.args[0]) == 'self':
                 # reflective access to a field of the gate whose name is a known string
                 fld = rec(nd.args[1])
@@ -155,6 +157,11 @@ def _judge(run, rule, f, direction, own, other, obj, objN, glob, has_gen, has_ow
             run.violation(rule, f, desc, 'the gate must act exactly once on the object (found %d rotate_by / transform_by calls)' % len(acts))
             return
         kind, what, m, node = acts[0]
+        if has_gen and isinstance(what, _Sym) and what.desc[0] in ('pauli-without-phase',) or \
+                (has_gen and isinstance(what, _Sym) and what.desc[0] == 'neg' and isinstance(what.desc[1], _Sym) and what.desc[1].desc[0] == 'pauli-without-phase'):
+            run.violation(rule, f, node, '%s of a generator gate rotates by an operator rebuilt from the string of the generator only: the sign of '
+                          'the generator is lost (a gate with generator -G rotates like +G)' % direction)
+            return
         if has_gen:
             want = _Sym('G') if direction == 'forward' else _Sym('neg', _Sym('G'))
             run.check(kind == 'rotate_by' and what == want, rule, f, node,
@@ -320,3 +327,15 @@ def layer_compile(run, f, rule='R11.lcompile'):
                   'the gate must be compiled before its maps are embedded')
         run.check(norm(lp.iter) == 'self.gates', rule, f, lp.iter, 'every gate of the layer must be embedded')
     run.check(seen == {'forward_map', 'backward_map'}, rule, f, 'embed', 'both directions must be embedded (found %s)' % sorted(seen))
+    # no gate is passed over: a statement that leaves the iteration early (continue / break) in the loop that embeds, on a path
+    # that has not embedded both maps yet, leaves that gate out of the compiled layer (it then acts as the identity)
+    for lp in {id(ctx.loops[-1]): ctx.loops[-1] for c, ctx, ln in embeds}.values():
+        emb_pos = [(ln, c.col_offset) for c, ctx, ln in embeds if ctx.loops[-1] is lp]
+        last_embed = max(emb_pos) if emb_pos else None
+        for st, ctx in walk(f.node):
+            if isinstance(st, (ast.Continue, ast.Break)) and ctx.loops and ctx.loops[-1] is lp and last_embed is not None \
+                    and (st.lineno, st.col_offset) < last_embed:
+                conds = ' and '.join(('' if pol else 'not ') + norm(t) for t, pol in ctx.conds)[:140]
+                run.violation(rule, f, st, 'a gate for which [%s] holds is skipped by the loop that builds the layer maps: it is left out of the compiled '
+                              'layer, which then acts on its qubits as the identity' % conds)
+
